@@ -35,6 +35,7 @@ MANIFEST = dict(
 CONCRETE = tr.CONCRETE
 KIND = tr.KIND
 DISP_IMPORTS = ['Coq.Lists.List', 'Coq.Bool.Bool', 'SV.Rot.RotDispatch', 'SV.Gen.RotDispatch_gen']
+REIFY_IMPORTS = ['Coq.Lists.List', 'Coq.Bool.Bool', 'SV.Rot.RotReify', 'SV.Gen.RotReified_gen']
 GJ_IMPORTS = ['Coq.Lists.List', 'Coq.Bool.Bool', 'SV.Rot.RotGJ', 'SV.Gen.RotInverse_gen']
 TOL = 1e-9
 GIMBAL = 0.001
@@ -613,6 +614,18 @@ def ident_problems(p: float, y: float, r: float, v: tuple, q: tuple) -> list[tup
             out.append(('inverse-vs-transpose', f'inverse() and transpose() of from_angle({p},{y},{r}) differ by {e:.3g}'))
     except ArithmeticError as ex:
         out.append(('inverse-vs-transpose', f'inverse() of the rotation from_angle({p},{y},{r}) raised {ex}'))
+    # inverse() of a general well-conditioned matrix (rows of M scaled by 0.5 .. 2.5) is a two-sided inverse
+    sc = [0.5 + (abs(x) % 2.0) for x in v]
+    kvals = [m[i][j] * sc[i] for i in range(3) for j in range(3)]
+    K = raw_matrix(kvals)
+    try:
+        Ki = K.inverse()
+        kl, kr, ki = mat_list(K), None, mat_list(Ki)
+        e = max(maxdiff(ref_mul(ki, kl), [[1, 0, 0], [0, 1, 0], [0, 0, 1]]), maxdiff(ref_mul(kl, ki), [[1, 0, 0], [0, 1, 0], [0, 0, 1]]))
+        if not e <= 1e-8:
+            out.append(('inverse-not-inverse', f'inverse() of the scaled rotation {kvals} times the matrix differs from the identity by {e:.3g}'))
+    except ArithmeticError as ex:
+        out.append(('inverse-not-inverse', f'inverse() of the invertible matrix {kvals} raised {type(ex).__name__}: {ex}'))
     e = maxdiff(mat_list(M.transpose()), ref_T(m))
     if e != 0.0:
         out.append(('transpose-formula', f'transpose() is not the transpose (difference {e:.3g})'))
@@ -771,11 +784,13 @@ def run(ck: Ck) -> None:
     ok_f = ck.translate('RotFormulas_gen', tr.translate_formulas)
     ok_d = ck.translate('RotDispatch_gen', tr.translate_dispatch)
     ok_i = ck.translate('RotInverse_gen', tri.translate_inverse)
+    ok_r = ok_f and ck.translate('RotReified_gen', tr.translate_reified)
     A = tr.analyse() if (ok_f and ok_d) else None
     built = False
     # 1. models and generated objects (definitions only: these compile whatever the source computes)
-    models = ck.build(['Rot/RotGJ.vo', 'Rot/RotGJFloat.vo', 'Rot/RotDispatch.vo']
+    models = ck.build(['Rot/RotGJ.vo', 'Rot/RotGJFloat.vo', 'Rot/RotDispatch.vo', 'Rot/RotReify.vo']
                       + (['Gen/RotFormulas_gen.vo', 'Gen/RotDispatch_gen.vo'] if A is not None else [])
+                      + (['Gen/RotReified_gen.vo'] if ok_r else [])
                       + (['Gen/RotInverse_gen.vo'] if ok_i else []))
     # 2. instance obligations: the generated objects are accepted by the decidable tests of the generic theorems
     if A is not None and models:
@@ -791,6 +806,16 @@ def run(ck: Ck) -> None:
             ck.extra['dispatch_rows_rejected'] = vals[0]
         ck.extra['dispatch_table_rows'] = len(A['rows'])
         ck.extra['mat_mul_alias_safe'] = A['F']['mat_mul_alias_safe']
+    if ok_r and models:
+        ck.instance_obligations(REIFY_IMPORTS, {
+            'to_angle_guard_operator_is_gt': 'guard_operator_ok ta_guard_cfg',
+            'to_angle_guard_literal_is_0_001': 'guard_literal_ok ta_guard_cfg',
+            'to_angle_guard_operand_is_horizontal_length': 'guard_operand_ok ta_guard_cfg',
+            'mat_mul_alias_row_a': 'alias_row_ok 0 mat_mul_self_polys mat_mul_ss_polys',
+            'mat_mul_alias_row_b': 'alias_row_ok 1 mat_mul_self_polys mat_mul_ss_polys',
+            'mat_mul_alias_row_c': 'alias_row_ok 2 mat_mul_self_polys mat_mul_ss_polys',
+            'mat_mul_alias_safe': 'polys_eqb mat_mul_self_polys mat_mul_ss_polys',
+        }, name='reify')
     if ok_i and models:
         ck.instance_obligations(GJ_IMPORTS, {
             'inverse_left_block_is_self': 'init_l_ok inverse_prog',
@@ -807,7 +832,7 @@ def run(ck: Ck) -> None:
     # 3. the proofs about the generated formulas
     if A is not None and models:
         core = ck.build(['Rot/RotAlgebra.vo', 'Rot/RotAliasProofs.vo', 'Rot/RotEulerProofs.vo', 'Rot/RotDispatchProofs.vo',
-                         'Rot/RotGJProofs.vo'])
+                         'Rot/RotGJProofs.vo'] + (['Rot/RotReifyProofs.vo'] if ok_r else []))
         built = core and ck.build(['Props/C04.vo'])
         if built:
             theorems_with_axioms(ck)
@@ -827,6 +852,13 @@ def run(ck: Ck) -> None:
     if any(k.startswith(('left-operand-mutated', 'right-operand-mutated', 'result-not-fresh', 'value-mismatch', 'unsupported',
                          'exception', 'result-kind')) for k in keys):
         ck.explain('instance:dispatch_')
+    if any(k.startswith(('euler-roundtrip', 'gimbal-bound', 'assoc-vec-angle', 'value-mismatch:Angle', 'value-mismatch:FrozenAngle'))
+           for k in keys):
+        ck.explain('instance:to_angle_guard_')
+    if any(k.startswith('value-mismatch:Matrix:same-object') for k in keys):
+        ck.explain('instance:mat_mul_alias_')
+    if any(k.startswith('inverse-') for k in keys):
+        ck.explain('instance:inverse_')
     explain_build(ck, keys)
 
 
@@ -846,6 +878,10 @@ LEMMA_EXPLAINED_BY = {
     'mat_mul_self_eq': ('value-mismatch:Matrix:same-object',),
     'ta_guard_horiz': ('euler-roundtrip', 'gimbal-bound'), 'euler_roundtrip': ('euler-roundtrip',),
     'gimbal_error_bound': ('gimbal-bound',),
+    'rowrel_elim': ('assoc-vec-matrix', 'value-mismatch:Vec', 'inverse-'), 'rowrel_scale': ('assoc-vec-matrix', 'value-mismatch:Vec', 'inverse-'),
+    'gauss_jordan_inverse': ('assoc-vec-matrix', 'assoc-matrix', 'value-mismatch:Matrix', 'inverse-'),
+    'ta_guard_tied': ('euler-roundtrip', 'gimbal-bound'), 'mat_mul_self_tied': ('value-mismatch:Matrix:same-object',),
+    'mat_mul_ss_tied': ('assoc-matrix', 'value-mismatch:Matrix'),
 }
 
 
